@@ -1,4 +1,5 @@
 import MpfVerif.Gen.TimeSuffix
+import MpfVerif.Gen.BoolWords
 /-!
 # Config validation (C12) — scalar validators, time strings, section validation
 
@@ -43,17 +44,30 @@ def splitSign : List Char → Bool × List Char
 inductive P (α : Type) | val (a : α) | err | unknown
   deriving Repr
 
-/-- Python `int(s)` for a str: `some`-value, ValueError, or not decided by the model -/
+/-- Python's underscore rule for numeric literals: an underscore must stand between two digits (`isD`); returns the
+text without underscores, or `none` when one is misplaced -/
+def dropUnderscores (isD : Char → Bool) (prevDigit : Bool) : List Char → Option (List Char)
+  | [] => some []
+  | c :: r =>
+    if c == '_' then
+      (if prevDigit then (match r with
+        | c2 :: _ => if isD c2 then dropUnderscores isD false r else Option.none
+        | [] => Option.none) else Option.none)
+    else (dropUnderscores isD (isD c) r).map (c :: ·)
+
+/-- Python `int(s)` for a str: `some`-value, ValueError, or not decided by the model (non-ASCII digits) -/
 def pyInt (s : String) : P Int :=
   let l := s.toList
   if l.any (fun c => c.toNat ≥ 128) then .unknown
-  else if l.any (· == '_') then .unknown
   else
-    let (neg, d) := splitSign (strip l)
-    if d.isEmpty then .err
-    else match digitsVal 0 d with
-      | some n => .val (if neg then - (Int.ofNat n) else Int.ofNat n)
-      | none => .err
+    let (neg, d0) := splitSign (strip l)
+    match dropUnderscores isDig false d0 with
+    | Option.none => .err
+    | some d =>
+      if d.isEmpty then .err
+      else match digitsVal 0 d with
+        | some n => .val (if neg then - (Int.ofNat n) else Int.ofNat n)
+        | Option.none => .err
 
 def splitAtChar (ch : Char) : List Char → List Char × Option (List Char)
   | [] => ([], none)
@@ -63,27 +77,44 @@ def splitAtChar (ch : Char) : List Char → List Char × Option (List Char)
 
 def lower (l : List Char) : List Char := l.map Char.toLower
 
-/-- Python `float(s)` for a str, exact: a rational, NaN/inf, ValueError, or not decided (exponents, underscores, non-ASCII) -/
+/-- `digits[.digits]`, `.digits`, `digits.` as an exact rational -/
+def pyMantissa (d : List Char) : Option (Nat × Nat) :=
+  let (ip, fp) := splitAtChar '.' d
+  let f := fp.getD []
+  if ip.isEmpty && f.isEmpty then Option.none
+  else match digitsVal 0 ip, digitsVal 0 f with
+    | some a, some b => some (a * 10 ^ f.length + b, 10 ^ f.length)
+    | _, _ => Option.none
+
+/-- Python `float(s)` for a str, exact: a rational, NaN/inf, ValueError, or not decided (non-ASCII, decimal exponents
+beyond ±300 where overflow / underflow to inf / 0 sets in) -/
 def pyFloat (s : String) : P Y :=
   let l := s.toList
   if l.any (fun c => c.toNat ≥ 128) then .unknown
-  else if l.any (· == '_') then .unknown
   else
-    let (neg, d) := splitSign (strip l)
-    let dl := lower d
+    let (neg, d0) := splitSign (strip l)
+    let dl := lower d0
     if dl == "nan".toList then .val .nan
     else if dl == "inf".toList || dl == "infinity".toList then .val (.inf neg)
-    else if dl.any (· == 'e') then (if dl.all (fun c => isDig c || c == 'e' || c == '.' || c == '+' || c == '-') then .unknown else .err)
-    else
-      let (ip, fp) := splitAtChar '.' d
-      let f := fp.getD []
-      if ip.isEmpty && f.isEmpty then .err
-      else match digitsVal 0 ip, digitsVal 0 f with
-        | some a, some b =>
-          let den := 10 ^ f.length
-          let num : Int := Int.ofNat (a * den + b)
-          .val (.rat (if neg then - num else num) den)
-        | _, _ => .err
+    else match dropUnderscores isDig false dl with
+      | Option.none => .err
+      | some d =>
+        let (m, ex) := splitAtChar 'e' d
+        match pyMantissa m with
+        | Option.none => .err
+        | some (num, den) =>
+          let sgn : Int := if neg then -1 else 1
+          match ex with
+          | Option.none => .val (.rat (sgn * Int.ofNat num) den)
+          | some e =>
+            let (eneg, ed) := splitSign e
+            if ed.isEmpty then .err
+            else match digitsVal 0 ed with
+              | Option.none => .err
+              | some k =>
+                if k > 300 || num ≥ 10 ^ 17 || den > 10 ^ 17 then .unknown
+                else if eneg then .val (.rat (sgn * Int.ofNat num) (den * 10 ^ k))
+                else .val (.rat (sgn * Int.ofNat (num * 10 ^ k)) den)
 
 /-! ## rational helpers -/
 
@@ -180,8 +211,9 @@ def stringToMs (v : Y) : R :=
 
 /-! ## scalar validators -/
 
-def boolFalse : List String := ["false", "f", "no", "disable", "off"]
-def boolTrue : List String := ["true", "t", "yes", "enable", "on"]
+/-- the word lists of `_validate_type_bool`, regenerated from the source (`Gen/BoolWords.lean`) -/
+def boolFalse : List String := MpfVerif.Gen.BoolWords.falseWords
+def boolTrue : List String := MpfVerif.Gen.BoolWords.trueWords
 
 def lowerS (s : String) : String := String.ofList (lower s.toList)
 
